@@ -178,7 +178,9 @@ def v1ClassWith (fieldLoader : S → JVal → LRes) (eff : MetaCfg) (ci : ClassI
       else
         let ca : List (PyVal × PyVal) := if kvs.length == i then [] else extra.map (fun kv => (PyVal.str kv.1, kv.2.toPy))
         finishClass ci kwargs ca (.dict kvs)
-  | _ => .error (.parse (some ci.name) none)
+  | _ =>
+    -- `o.get(...)` fails on the first field's lookup: `field` already names that field when `re_raise` runs
+    .error (.parse (some ci.name) (((ci.fields.filter (fun f => f.init && !f.isCatchAll)).head?).map (·.name)))
 
 mutual
 /-- the value of the expression v1 generates for annotation `t`, applied to `o` -/
@@ -257,19 +259,23 @@ def loadV1 (std : Std) (cfg : Option MetaCfg) : Ty → JVal → LRes
   | .ntuple name fields, o =>
       let names := fields.map (·.1)
       match o with
-      | .list xs =>
-          let required := (fields.filter (fun f => f.2.2.isNone)).length
-          if xs.length < required then .error (.missingFields name ((fields.drop xs.length).filterMap (fun f => if f.2.2.isNone then some f.1 else none)))
-          else do
-            let ys ← v1NtList std cfg fields xs
+      | .dict _ => if fields.any (fun f => f.2.2.isNone) then perr else
+          -- no required field: `len(v1)` decides; a non-empty dict then fails on `v1[k]`
+          (match o with | .dict [] => pure (.ntuple name names (fields.filterMap (fun f => f.2.2.map Dflt.toPy))) | _ => perr)
+      | _ =>
+        match jLen o with
+        | none => perr
+        | some n => do
+            let ys ← v1NtSeq std cfg name fields 0 n o
             let rest := fields.drop ys.length
             pure (.ntuple name names (ys ++ rest.filterMap (fun f => f.2.2.map Dflt.toPy)))
-      | _ => perr
   | .typeddict _ fields, o =>
       match o with
-      | .dict kvs => do
-          let ps ← v1Td std cfg fields kvs
-          pure (.map .dict ps)
+      | .dict kvs =>
+          -- library errors of nested values pass through unchanged (fix fc44b9d); a missing required key -> ParseError
+          match v1Td std cfg fields kvs with
+          | .ok ps => pure (.map .dict ps)
+          | .error e => .error e
       | _ => perr
   | .cls ci ftys, o =>
       v1ClassWith (fun f v => v1Field std cfg f v ftys) (effMeta ci.cmeta cfg) ci o
@@ -298,6 +304,7 @@ def v1UnionExact (std : Std) (cfg : Option MetaCfg) : List Ty → JVal → Optio
           -- untagged dataclass (v1_unsafe_parse_dataclass_in_union): try-parse
           match loadV1 std cfg t o with
           | .ok y => some (.ok y)
+          | .error (.unsupported w) => some (.error (.unsupported w))
           | .error _ => v1UnionExact std cfg ts o
       | _ =>
         if isSimpleTy t then
@@ -305,6 +312,7 @@ def v1UnionExact (std : Std) (cfg : Option MetaCfg) : List Ty → JVal → Optio
         else
           match loadV1 std cfg t o with
           | .ok y => some (.ok y)
+          | .error (.unsupported w) => some (.error (.unsupported w))
           | .error _ => v1UnionExact std cfg ts o
 
 /-- second pass: try-parse (coercion) of the simple members in order -/
@@ -314,6 +322,7 @@ def v1UnionCoerce (std : Std) (cfg : Option MetaCfg) : List Ty → JVal → Opti
       if isSimpleTy t && (match t with | .none => false | _ => true) then
         match loadV1 std cfg t o with
         | .ok y => some (.ok y)
+        | .error (.unsupported w) => some (.error (.unsupported w))
         | .error _ => v1UnionCoerce std cfg ts o
       else v1UnionCoerce std cfg ts o
 
@@ -328,13 +337,23 @@ def v1Tuple (std : Std) (cfg : Option MetaCfg) : List Ty → Nat → JVal → Ex
           let ys ← v1Tuple std cfg ts (k + 1) o
           pure (y :: ys)
 
-def v1NtList (std : Std) (cfg : Option MetaCfg) : List (S × Ty × Option Dflt) → List JVal → Except LErr (List PyVal)
-  | [], _ => pure []
-  | _ :: _, [] => pure []
-  | (_, t, _) :: fs, x :: xs => do
-      let y ← loadV1 std cfg t x
-      let ys ← v1NtList std cfg fs xs
-      pure (y :: ys)
+/-- fields of a NamedTuple taken positionally from an indexable value of length `n`: a required field beyond the
+end -> MissingFields (required fields not yet assigned); an optional one beyond the end -> stop -/
+def v1NtSeq (std : Std) (cfg : Option MetaCfg) (ntName : S) : List (S × Ty × Option Dflt) → Nat → Nat → JVal → Except LErr (List PyVal)
+  | [], _, _, _ => pure []
+  | (fname, t, d) :: fs, k, n, o =>
+      if k < n then
+        match jIndex o k with
+        | none => perr
+        | some x => do
+            let y ← loadV1 std cfg t x
+            let ys ← v1NtSeq std cfg ntName fs (k + 1) n o
+            pure (y :: ys)
+      else if d.isNone then
+        .error (.missingFields ntName (((fname, t, d) :: fs).filterMap (fun f => if f.2.2.isNone then some f.1 else none)))
+      else
+        -- remaining required fields after an optional gap cannot occur (defaults are trailing)
+        pure []
 
 def v1Td (std : Std) (cfg : Option MetaCfg) : List (S × Ty × Bool) → List (S × JVal) → Except LErr (List (PyVal × PyVal))
   | [], _ => pure []
